@@ -597,7 +597,14 @@ def unit(repo, fname, defines=(), openmp=True):
         for q_, f in u.funcs.items():
             if f.body is not None:
                 prm_ = [p_[0] for p_ in f.params]
-                f.body = canon_body(alpha.absorb_new_locals(fname, q_, prm_, alpha.recover(fname, q_, prm_, f.body)))
+                from .canon import split_cond_assigns
+                b_ = alpha.recover(fname, q_, prm_, split_cond_assigns(f.body))
+                if alpha.LAST_RENAMING:
+                    f.locals = {alpha.LAST_RENAMING.get(k_, k_): v_ for k_, v_ in f.locals.items()}       # the declared types follow the names
+                f.body = canon_body(alpha.absorb_new_locals(fname, q_, prm_, b_))
+                # the call list is a view of the (normalised) body
+                from .ir import walk_expr as _we, stmt_exprs as _se, dotted as _dt
+                f.calls = [(_dt(x[1]), st_.line, x[2]) for st_ in walk_stmts_(f.body) for e_ in _se(st_) for x in _we(e_) if x[0] == 'call' and _dt(x[1])]
         # the OpenMP regions are statements of the (expanded, canonical) bodies
         u.omp_regions = [(q, st) for q, f in u.funcs.items() if f.body is not None for st in walk_stmts_(f.body) if st.k == 'omp']
         _UNITS[key] = u
